@@ -553,16 +553,16 @@ def level_b_runs(ctx, z, root, world, initial, knobs, seed, rng, tier, stats, fa
         else:
             victim = rng.choice(targets)
             vb = os.path.basename(outrels[victim]) if False else os.path.basename(victim)
-            kind = rng.choice(["err", "err", "kill", "kill_mid", "err_after", "short"])
+            kind = rng.choice(["err", "err", "kill", "kill_mid", "err_after", "short", "power", "power", "power_mid"])
             cls = rng.choice(["rename", "write", "fsync", "chmod", "create", "close"])
-            if kind in ("kill_mid", "short"):
+            if kind in ("kill_mid", "short", "power_mid"):
                 cls = "write"
             if kind == "err_after" and cls == "create":
                 cls = "rename"
             f: dict[str, Any] = {"cls": cls, "path": os.path.splitext(vb)[0], "nth": 0, "kind": kind}
             if kind == "err":
                 f["errno"] = rng.choice(ERRNOS_BY_CLASS[cls])
-            if kind in ("kill_mid", "short"):
+            if kind in ("kill_mid", "short", "power_mid"):
                 f["bytes"] = rng.randint(1, 20)
             cfg = {
                 "plan": [f],
@@ -578,7 +578,8 @@ def level_b_runs(ctx, z, root, world, initial, knobs, seed, rng, tier, stats, fa
         try:
             if cfg["via"] == "api":
                 out = n.call("lint_paths", paths=["."], fix=True, apply_fixes=True, fixed_file_suffix=suffix,
-                             processes=cfg["processes"], plan=cfg["plan"], retain_files=False)
+                             processes=cfg["processes"], plan=cfg["plan"], retain_files=False,
+                             export_shadow=any(p_["kind"].startswith("power") for p_ in cfg["plan"]))
             else:
                 argv = ["fix", ".", "-p", str(cfg["processes"])]
                 if suffix:
@@ -609,6 +610,24 @@ def level_b_runs(ctx, z, root, world, initial, knobs, seed, rng, tier, stats, fa
                               initial[outrels[rel]][0] if (suffix and outrels[rel] in initial) else None)
             if m:
                 vs.append({"oracle": "levelB-content", "signature": "C26:generic", "message": m})
+        if crashed and "shadow" in out and str(out.get("crashed", "")).startswith("power"):
+            # power loss in the middle of a multi-file run: every legal post-crash disk state, every file
+            nstates = 0
+            for label, state in power_states(initial, out["shadow"], world["knobs"]["fsync_persists_dirent"], cap=250):
+                nstates += 1
+                bad = None
+                for rel in targets:
+                    if rel not in fixed:
+                        continue
+                    bad = judge_content(rel, outrels[rel], initial[rel][0], fixed[rel], state, suffix,
+                                        "multi-file %s run (p=%d) after power loss [%s]" % (cfg["via"], cfg["processes"], label),
+                                        initial[outrels[rel]][0] if (suffix and outrels[rel] in initial) else None)
+                    if bad:
+                        break
+                if bad:
+                    vs.append({"oracle": "levelB-power-content", "signature": "C26:generic", "message": bad})
+                    break
+            stats["levelB_power_states"] += nstates
         if not crashed:
             expected = set(k for k in initial if initial[k][0] is not None) | set(outrels.values())
             extra = set(files) - expected
